@@ -585,7 +585,8 @@ class HTTPConnectionPool(ConnectionPool, RequestMethods):
         Check if the given ``url`` is a member of the same host as this
         connection pool.
         """
-        if url.startswith("/"):
+        # A path is on this host; a network-path reference ("//host/path") names its own.
+        if url.startswith("/") and not url.startswith("//"):
             return True
 
         # TODO: Add optional support for socket.gethostbyname checking.
